@@ -466,13 +466,14 @@ C04_PRELUDE = [
                                                               Obj(("t", Inf("+", PCall(Id("self"), "t"), Id("x"))), ("ustep", Idx(Id("self"), Str("ustep"))))))], method=True)))),
 ]
 ELEM = {"v": lambda k: Call(Id("mk"), [Int(k), Int(0)]), "n": lambda k: Call(Id("mk"), [Int(k), Int(1)]),
-        "r": lambda k: Call(Id("mk"), [Int(k), Int(2)]), "0": lambda k: Nil()}
+        "r": lambda k: Call(Id("mk"), [Int(k), Int(2)]), "0": lambda k: Nil(), "N": lambda k: NilNew()}
 
 
 def c04_family(thorough):
     progs = []
     maxlen = 3 if thorough else 2
     pats = [""] + ["".join(p) for n in range(1, maxlen + 1) for p in itertools.product("vnr0", repeat=n)]
+    pats += ["N", "vN", "Nv", "NN", "N0", "nN"]          # nil values that are not the literal's object
     adds = {".": ["", "&", "~"], "@": ["", "&", "~", "="], "$": ["", "&", "~"]}
     # list + scalar chains over element objects, method without / with an extra argument
     for extra in (False, True):
@@ -489,7 +490,7 @@ def c04_family(thorough):
                     progs.append((key + ":prop", C04_PRELUDE + [Say(PCall(recv, meth, args, main="@", add=add, carg=carg)), Say(Str("after"))]))
                     progs.append((key + ":lit", C04_PRELUDE + [Say(LCall(recv, lit, main="@", add=add, carg=carg)), Say(Str("after"))]))
                     progs.append((key + ":var", C04_PRELUDE + [Asg("g", lit), Say(VCall(recv, "g", main="@", add=add, carg=carg)), Say(Str("after"))]))
-        for c in "vnr0":
+        for c in "vnr0N":
             recv = ELEM[c](1)
             for add in adds["."]:
                 key = f"scalar:{add}.:{c}:-:{meth}"
